@@ -8,7 +8,7 @@ CLAIMED = {
          "Seeded search over interleavings of incrementing tasks with the periodic report loop, the root's Close and report-on-reacquire (plain and cached recording reporters, slow-reporter and clock faults, seeded map order and shard placement); per identity the delivered sum must equal the increments applied while the scope was live, no negative delta for non-negative histories, nothing delivered by an idle pass. Exploration: a clean batch is evidence, not proof.",
          "Trusts the shim fidelity (sync, atomics, channels modelled at operation granularity; Go atomics are SC), testing/synctest's fake clock, and the ledger model; yields only at synchronisation operations."),
  "C02": ("6/C02", "deterministic simulation: seeded schedules of one updater per gauge vs concurrent report passes, latest-value oracle over the recorded history",
-         "Seeded search over interleavings of Update (two atomic stores) with report passes (swap + load) from the ticker, Close and report-on-reacquire; unique bit patterns incl. NaN payloads, infinities, -0, subnormals; bystander tasks requesting the same gauge concurrently without updating it; every delivered value must have been passed to Update earlier, deliveries never outnumber updates, after updates stop and a complete pass ran the reporter's most recent value is the last update, an idle pass re-delivers nothing. Exploration.",
+         "Seeded search over interleavings of Update (two atomic stores) with report passes (swap + load) from the ticker, Close and report-on-reacquire; unique bit patterns incl. NaN payloads, infinities, -0, subnormals; bystander tasks requesting the same gauge concurrently without updating it; every delivered value must have been passed to Update earlier, deliveries never outnumber updates, no single update is delivered twice (a value delivered more often than it was passed to Update although every such Update had returned before its first delivery), after updates stop and a complete pass ran the reporter's most recent value is the last update, an idle pass re-delivers nothing. Exploration.",
          "As C01; pass boundaries are taken from the reporter seam (Flush), not from internals."),
  "C07": ("6/C07", "deterministic simulation: seeded schedules of obtain/record/Close/re-request cycles vs report passes, per-scope-object obligation ledger",
          "Seeded search over interleavings of {obtain subscope, record, Close, obtain again, record} cycles on 1-3 identities sharing registry shards with the periodic pass, report-on-reacquire and (sometimes) the root's Close; obligations are kept per returned scope object (recorded before its Close was invoked = required, overlapping or later = optional, through a scope derived from an already closed scope = forbidden, also when the same child was derived earlier and is still live); delivered sums must match, a re-requested scope must be functional, no panic or deadlock. Exploration.",
@@ -23,10 +23,10 @@ CLAIMED = {
          "Seeded search over record histories on timers in several scopes (unique and extreme durations) interleaved with report passes, on plain, cached, plain+cached and reporter-less test scopes; every Record must produce exactly one delivery (through the cached handle whenever a cached reporter is configured) with its value, name and tags, made by the recording task before Record returns, passes deliver no timer values, stopwatches record the fake-clock time between Start and Stop, an instrumented call runs once, returns its error, records one latency and bumps exactly one counter. Exploration.",
          "As C01; stopwatch bounds use the simulated clock read before/after Start and Stop."),
  "C11": ("6/C11", "deterministic simulation: test-scope histories with quiescent and concurrent snapshots compared with a reference ledger",
-         "Seeded search over record histories on a test scope and derived scopes with snapshots taken concurrently and at quiescence; a quiescent snapshot must equal the reference ledger exactly (keys, names, tags, counter sums, last gauge bits, timer values, every bucket incl. empty ones and duplicated bounds), a concurrent one must lie between completed and invoked increments, a snapshot must not change after later recording, mutating it must not affect the scope, closed test subscopes stay visible. Exploration; the snapshot contents are input-dominated, the simulator adds the concurrent snapshots and seeded map order.",
-         "As C01. Names and tags avoid the key format's delimiter characters (see known finding D3b)."),
+         "Seeded search over record histories on a test scope and derived scopes with snapshots taken concurrently and at quiescence; a quiescent snapshot must equal the reference ledger exactly (keys, names, tags, counter sums, last gauge bits, timer values, every bucket incl. empty ones and duplicated bounds), a concurrent one must lie between completed and invoked increments, one full name + tag set held by two scopes (a dotted metric name next to a subscope) is one entry with the combined values, a snapshot must not change after later recording, mutating it must not affect the scope, closed test subscopes stay visible. Exploration; the snapshot contents are input-dominated, the simulator adds the concurrent snapshots and seeded map order.",
+         "As C01. Known finding D20 (two metrics whose documented snapshot key is the same string because a tag value or key contains a delimiter share one snapshot entry) is recognised by its signature and reported as KNOWN-FINDING."),
  "C03": ("6/C03", "deterministic simulation: record/report histories with boundary-biased seeded specs and samples; tiling + per-bucket conservation oracle against a reference bucket model",
-         "Seeded generation of bucket specifications (value/duration, unsorted, duplicated, negative, single, nil) and samples (each bound, one ulp / ns either side, extremes, +-Inf, NaN, wrong kind), recorded concurrently with report passes on plain, cached and test scopes; the buckets handed to the reporter must tile the line and equal the reference tiling, every sample must be delivered in the one bucket the reference model names (NaN: at most one), per-bucket counts are conserved, nothing panics. Exploration; which bucket a sample belongs to is a pure function of the input (covered by generation only), the simulator contributes record||report histories, the two reporter paths and conservation.",
+         "Seeded generation of bucket specifications (value/duration, unsorted, duplicated, negative, single, nil) and samples (each bound, one ulp / ns either side, extremes, +-Inf, NaN, wrong kind), scope default buckets whose slice the caller overwrites after construction, recorded concurrently with report passes on plain, cached and test scopes; the buckets handed to the reporter must tile the line and equal the reference tiling, every sample must be delivered in the one bucket the reference model names (NaN: at most one), per-bucket counts are conserved, nothing panics. Exploration; which bucket a sample belongs to is a pure function of the input (covered by generation only), the simulator contributes record||report histories, the two reporter paths and conservation.",
          "As C01; reference bucket model written from the statement (first upper bound >= sample)."),
  "C20": ("6/C20", "deterministic simulation: concurrent histogram creation with bucket sets built to collide in the shared bucket cache; per-histogram tiling oracle + caller-slice immutability",
          "Several tasks create histograms under one root at the same time with permutations of one set, sets with equal sums of bit patterns and value/duration sets of equal identity, some sharing one caller slice, some built one after the other in one scratch slice that the caller overwrites; each histogram must deliver exactly the tiling of the bounds it was created with, and BucketPairs / Histogram never modify the caller's slice. Exploration. The constructor clauses (recurrence, rejected arguments, Must* panics) are pure functions: they are checked by seeded, boundary-biased calls against the recurrence (plain input generation inside the same runs, no schedule involved, no coverage of the argument space claimed).",
@@ -47,13 +47,13 @@ CLAIMED = {
          "Every emitted datagram is decoded with the real codec and must be exactly one well-formed one-way emitMetricBatchV2 message carrying the configured common tags; every value reported before Close was called must appear exactly once with the name, kind, value and tags it was allocated with (bucket id / range tags for buckets, ids increasing with the bounds), timestamp between construction and the return of the call, everything emitted before Close returns, every destination receiving identical datagrams. Tag sets include pairs colliding in the reporter's tag-cache hash; values are reported immediately after construction. Under injected send errors a failed datagram may be missing as a whole, never altered or duplicated. Exploration.",
          "As C12."),
  "C14": ("6/C14", "deterministic simulation: producers, Flush and 1-3 Close callers racing on a tiny queue with send faults; panic/deadlock/leak oracle (+ race-detector slice)",
-         "Seeded interleavings of Allocate/Report on shared handles, Flush and concurrent Close callers (plus calls after Close) with queue sizes 1-4 and destinations that fail or are closed mid-run; no task may panic (send on closed channel), every task completes (deadlock = no enabled task after bounded clock advances, livelock = no completion under fair scheduling), exactly one Close returns nil, nothing goes on the wire after Close returned, the reporter's goroutines have exited. Exploration.",
+         "Seeded interleavings of Allocate/Report on shared handles, Flush and concurrent Close callers (plus calls after Close) with queue sizes 1-4 and destinations that fail or are closed mid-run; producers that keep reporting until Close has returned (they never pause); no task may panic (send on closed channel), every task completes (deadlock = no enabled task after bounded clock advances, livelock = no completion under fair scheduling), exactly one Close returns nil, nothing goes on the wire after Close returned, the reporter's goroutines have exited. Exploration.",
          "As C12. The data-race clause is covered only by the -race slice (happens-before based, schedule dependent)."),
  "C15": ("6/C15", "deterministic simulation with fault sequences: Write/WriteByte/WriteString/Flush/Close sequences with oversize writes, send errors, closed sockets and abandoned messages against a byte-buffer reference model",
          "Seeded call sequences on the single and multi destination UDP transports with chunk sizes around the 65000 byte limit and faults at seeded positions (refused write, failing send, socket closed by the environment, writer abandoning a message after an error); each Flush must produce exactly one datagram with exactly the bytes accepted since the previous Flush and leave the buffer empty whether or not the send failed, refused writes send nothing, the next message arrives complete and alone, the multi transport fans out when no destination fails and, when one does (faults may be aimed at a single destination), never sends any destination anything but exactly one Flush's message; Close is idempotent, use after Close errors and sends nothing. fault_enumeration-style exploration of a sequential API; no interleavings are involved (the transport is not used concurrently).",
          "The socket is a stub (errors are 'this send returns an error'). Known finding D9 (stale prefix after an abandoned message) is recognised by its signature and reported as KNOWN-FINDING."),
  "C17": ("6/C17", "deterministic simulation: record histories through a scope into the real Prometheus reporter and a private registry, Gather compared with a reference ledger; separate conflict profile with returning and panicking error callbacks",
-         "Concurrent tasks record on counters, gauges, timers (summary and histogram flavour) and histograms with strictly increasing finite bounds (samples on the bounds) while report passes run; after the final pass Gather must show the ledger sum per counter, the last update per gauge, cumulative bucket counts equal to the number of samples <= each bound (durations in seconds) and the sample total, the number of recorded values per timer, one family per name with one series per tag-value set. Conflict profile: first uses reusing a name across kinds or with other tag keys, with callbacks given via Options and via Configuration.OnError that return, log or panic; whenever the callback returns the caller must hold a usable metric, and no panic may be a runtime error (nil dereference) or come from anywhere but the configured callback. Exploration; value agreement is input-dominated, the simulator adds concurrent first use, record||report and the callback/panic paths.",
+         "Concurrent tasks record on counters, gauges, timers (summary and histogram flavour) and histograms with strictly increasing finite bounds (samples on the bounds) while report passes run; after the final pass Gather must show the ledger sum per counter, the last update per gauge, cumulative bucket counts equal to the number of samples <= each bound (durations in seconds) and the sample total, the number of recorded values per timer, one family per name with one series per tag-value set, every histogram exposed with exactly its own bounds (also when the caller reuses its bucket slice afterwards). Conflict profile: first uses reusing a name across kinds or with other tag keys, with callbacks given via Options and via Configuration.OnError that return, log or panic; whenever the callback returns the caller must hold a usable metric, and no panic may be a runtime error (nil dereference) or come from anywhere but the configured callback. Exploration; value agreement is input-dominated, the simulator adds concurrent first use, record||report and the callback/panic paths.",
          "As C01; prometheus client_golang runs real and un-instrumented; every run uses a private registry and, for the Configuration path, its own handler path on the process-wide mux."),
 }
 
